@@ -112,7 +112,12 @@ def _coerce_int_to_range_index(y, X=None):
             "failed. Please provide `y_train` with a "
             "pd.RangeIndex."
         )
-    y.index = new_index
+    # work on copies and do not hide exogenous data that is indexed differently
     if X is not None:
+        if not y.index.equals(X.index):
+            raise ValueError("Some (time) indices are not the same.")
+        X = X.copy()
         X.index = new_index
+    y = y.copy()
+    y.index = new_index
     return y, X
